@@ -108,7 +108,12 @@ def run_case(desc, ctx):
                 losses, ek = extreme_losses(rng, n)
                 cnt("extreme_histories")
             p0, l0 = digest(pts), digest(losses)
-            w = {"sampler": smp, "space": sd, "losses": losses, "extreme": extreme}
+            readonly = rep % 2 == 1
+            if readonly:   # the history belongs to the caller: handing it over write-protected must not disturb any sampler
+                pts.setflags(write=False)
+                losses.setflags(write=False)
+                cnt("readonly_histories")
+            w = {"sampler": smp, "space": sd, "losses": losses, "extreme": extreme, "history_write_protected": readonly}
             try:
                 with quiet(), G.time_limit(G.LIMIT):
                     s = G.build_sampler(smp)
@@ -118,6 +123,8 @@ def run_case(desc, ctx):
             except G.Timeout:
                 cnt(f"rejected_timeout_{sk}")
             except Exception as e:  # noqa: BLE001
+                if "read-only" in str(e):
+                    bad(f"{sk}: sample() tried to write into the (write-protected) history: {type(e).__name__}: {e}", w)
                 cnt(f"rejected_{sk}")
             cnt(f"nomod_{sk}")
             out["evals"] += 1
